@@ -379,6 +379,165 @@ func blankClass(c Config, line string) string {
 	return "plain"
 }
 
+
+// ---- size family ------------------------------------------------------------------
+// n numbered lines `k<i>|<x or y>|` (every third line has x, which the ignore
+// expression {eq {2} x} selects), or three lines whose middle one has a field
+// of n bytes; through the real reader batcher with its production read buffer.
+
+type SizeCase struct {
+	Shape   string `json:"shape"` // lines | long-field
+	N       int    `json:"n"`
+	Workers int    `json:"workers"`
+	Batch   int    `json:"batch"`
+	Ignore  bool   `json:"ignore"`
+	Matcher string `json:"matcher"`
+}
+
+func sizeNs(quick bool, shape string) []int {
+	var out []int
+	for n := 0; n <= 70; n++ {
+		out = append(out, n)
+	}
+	maxK := 17
+	if quick {
+		maxK = 14
+	}
+	if shape == "long-field" {
+		maxK = 18 // twice the 128 KiB read buffer
+		if quick {
+			maxK = 17
+		}
+	}
+	for k := 7; k <= maxK; k++ {
+		out = append(out, 1<<k-1, 1<<k, 1<<k+1)
+	}
+	out = append(out, 999, 1000, 1001, 1999, 2000, 2001) // the default batch size
+	return out
+}
+
+func sizeClass(n int) string {
+	switch {
+	case n <= 70:
+		return "upto70"
+	case n <= 1025:
+		return "upto1025"
+	case n <= 16385:
+		return "upto16385"
+	}
+	return "above16385"
+}
+
+func runSize(w *runner.W, c SizeCase) {
+	w.SetCase(func() any { return c })
+	var sb strings.Builder
+	type want struct {
+		key     string
+		ignored bool
+	}
+	var wants []want
+	switch c.Shape {
+	case "lines":
+		for i := 1; i <= c.N; i++ {
+			f2 := "y"
+			if i%3 == 0 {
+				f2 = "x"
+			}
+			k := "k" + strconv.Itoa(i)
+			sb.WriteString(k + "|" + f2 + "|\n")
+			wants = append(wants, want{k, c.Ignore && f2 == "x"})
+		}
+	case "long-field":
+		long := strings.Repeat("L", c.N)
+		sb.WriteString("a|y|\n" + long + "|x|\n" + "b|y|\n")
+		wants = []want{{"a", false}, {long, c.Ignore}, {"b", false}}
+		if c.N == 0 {
+			wants[1] = want{"", false} // empty key: ignored (counted below)
+		}
+	}
+	var ig extractor.IgnoreSet
+	if c.Ignore {
+		var err error
+		ig, err = extractor.NewIgnoreExpressions("{eq {2} x}")
+		if err != nil {
+			panic(err)
+		}
+	}
+	b := batchers.OpenReaderToChan("in", &slowReader{data: []byte(sb.String())}, c.Batch, 2)
+	ex, err := extractor.New(b.BatchChan(), &extractor.Config{Matcher: factory(c.Matcher), Extract: "{1}", Workers: c.Workers, Ignore: ig})
+	if err != nil {
+		panic(err)
+	}
+	got := make(map[uint64]string, len(wants))
+	dup := 0
+	for batch := range ex.ReadChan() {
+		for _, m := range batch {
+			if _, ok := got[m.LineNumber]; ok {
+				dup++
+			}
+			got[m.LineNumber] = m.Extracted
+		}
+	}
+	pre := "C01/classify/size-family/" + c.Shape + "/" + sizeClass(c.N) + "/"
+	var wantM, wantI uint64
+	bad := 0
+	for i, wl := range wants {
+		g, ok := got[uint64(i+1)]
+		switch {
+		case wl.ignored || wl.key == "":
+			wantI++
+			if ok && bad < 3 {
+				bad++
+				w.Violation(pre+"ignored-line-emitted", fmt.Sprintf("line %d of %d must be ignored; emitted with a key of %d bytes", i+1, len(wants), len(g)), c)
+			}
+		default:
+			wantM++
+			if !ok && bad < 3 {
+				bad++
+				w.Violation(pre+"matched-line-not-emitted", fmt.Sprintf("line %d of %d (key of %d bytes) was not emitted", i+1, len(wants), len(wl.key)), c)
+			} else if ok && g != wl.key && bad < 3 {
+				bad++
+				w.Violation(pre+"wrong-key", fmt.Sprintf("line %d of %d: key %.40q.. (%d bytes), reference %.40q.. (%d bytes)", i+1, len(wants), g, len(g), wl.key, len(wl.key)), c)
+			}
+		}
+	}
+	if dup > 0 {
+		w.Violation(pre+"line-emitted-twice", fmt.Sprintf("%d lines emitted more than once", dup), c)
+	}
+	if len(got) > len(wants) {
+		w.Violation(pre+"line-number-beyond-input", fmt.Sprintf("%d distinct line numbers for %d lines", len(got), len(wants)), c)
+	}
+	if ex.ReadLines() != uint64(len(wants)) || ex.MatchedLines() != wantM || ex.IgnoredLines() != wantI {
+		w.Violation(pre+"totals", fmt.Sprintf("Matched: %d / %d (Ignored: %d); reference Matched: %d / %d (Ignored: %d)", ex.MatchedLines(), ex.ReadLines(), ex.IgnoredLines(), wantM, len(wants), wantI), c)
+	}
+	w.Eval(len(wants) > 0)
+	w.Outcome("size", c.Shape, strconv.Itoa(c.N), strconv.FormatBool(c.Ignore))
+	w.Add("size_family_runs", 1)
+	w.Add("transitions", int64(len(wants)))
+}
+
+func sizeCases(quick bool) []SizeCase {
+	var out []SizeCase
+	plumb := [][2]int{{1, 1}, {2, 7}, {0, 1000}, {3, 1001}}
+	for _, shape := range []string{"lines", "long-field"} {
+		for _, n := range sizeNs(quick, shape) {
+			for pi, p := range plumb {
+				if n > 20000 && p[1] == 1 && quick {
+					continue
+				}
+				m := "re"
+				if pi%2 == 1 {
+					m = "dissect"
+				}
+				for _, ig := range []bool{false, true} {
+					out = append(out, SizeCase{Shape: shape, N: n, Workers: p[0], Batch: p[1], Ignore: ig, Matcher: m})
+				}
+			}
+		}
+	}
+	return out
+}
+
 func configs(tier string) []Config {
 	var out []Config
 	plumb := [][2]int{{1, 1}, {2, 3}, {0, 1000}}
@@ -410,6 +569,16 @@ func worker(w *runner.W) {
 		}
 		runConfig(w, c, lines, "")
 	}
+	for _, sc := range sizeCases(w.Quick()) {
+		n++
+		if !w.Owns(n) {
+			continue
+		}
+		if w.Expired() {
+			return
+		}
+		runSize(w, sc)
+	}
 	if w.Shard == 0 {
 		w.Add("lines_per_run", int64(len(lines)))
 		w.Add("states", int64(len(lines)))
@@ -417,6 +586,11 @@ func worker(w *runner.W) {
 }
 
 func replay(w *runner.W, raw json.RawMessage) {
+	var sc SizeCase
+	if err := json.Unmarshal(raw, &sc); err == nil && sc.Shape != "" {
+		runSize(w, sc)
+		return
+	}
 	var c Case
 	if err := json.Unmarshal(raw, &c); err != nil {
 		panic(err)
@@ -439,7 +613,7 @@ func main() {
 		Properties: []string{"C01"},
 		Level:      "model_checking",
 		Rule: func(prop, tier string) string {
-			return fmt.Sprintf("classification clause of C01 on the real batcher + extractor (free-running goroutines; the result may not depend on the schedule): one input of %d lines `F1|F2|` where F1, F2 range over all strings of up to 2 (thorough: 3) tokens from {empty, a, b, blank, TAB, VT, FF, CR, NBSP, NEL, EM SPACE, IDEOGRAPHIC SPACE, LINE SEPARATOR, OGHAM SPACE, ZERO WIDTH SPACE, BOM, 0, NUL, é, the lone bytes 0xA0 and 0x85} (quick: at most one of the two fields has two tokens) plus 5 lines that do not match; x matcher {regex, dissect} x key expression {{1},{0},{2},{1}{2}} x %d sets of ignore expressions over {{2},{1},{eq {1} b},' ',{2}{1},TAB{2}LF} (order matters: any truthy expression ignores) x (workers, batch) grid incl. workers 0 (default) ; every emitted match is mapped to its line by line number. Oracle: matched iff the line has both bars, no ignore expression is non-blank (blank = only Unicode White_Space; strings where a byte that is not valid UTF-8 would decide are not judged) and the key is not the empty string (a key of blanks is a key); key text; no line emitted twice; totals. non-trivial = the line matches the pattern", len(lineSet(tier)), len(ignoreSets))
+			return fmt.Sprintf("classification clause of C01 on the real batcher + extractor (free-running goroutines; the result may not depend on the schedule): one input of %d lines `F1|F2|` where F1, F2 range over all strings of up to 2 (thorough: 3) tokens from {empty, a, b, blank, TAB, VT, FF, CR, NBSP, NEL, EM SPACE, IDEOGRAPHIC SPACE, LINE SEPARATOR, OGHAM SPACE, ZERO WIDTH SPACE, BOM, 0, NUL, é, the lone bytes 0xA0 and 0x85} (quick: at most one of the two fields has two tokens) plus 5 lines that do not match; x matcher {regex, dissect} x key expression {{1},{0},{2},{1}{2}} x %d sets of ignore expressions over {{2},{1},{eq {1} b},' ',{2}{1},TAB{2}LF} (order matters: any truthy expression ignores) x (workers, batch) grid incl. workers 0 (default) ; every emitted match is mapped to its line by line number. Oracle: matched iff the line has both bars, no ignore expression is non-blank (blank = only Unicode White_Space; strings where a byte that is not valid UTF-8 would decide are not judged) and the key is not the empty string (a key of blanks is a key); key text; no line emitted twice; totals. Size family: n numbered lines `k<i>|y or x|` (every third is selected by the ignore expression {eq {2} x}) for n = 0..70, 999..1001, 1999..2001 and 2^k-1, 2^k, 2^k+1 (k = 7..14 quick / 17 thorough), and three lines whose middle one has a first field of n bytes (k up to 17 / 18: beyond the 128 KiB read buffer), x (workers, batch) in {(1,1),(2,7),(default,1000),(3,1001)} x ignore on/off, regex and dissect alternating; every line must come out exactly once under its own number with its own key. non-trivial = the line matches the pattern", len(lineSet(tier)), len(ignoreSets))
 		},
 		Assumptions: func(string) []string {
 			return []string{"whitespace in 'False is an empty value (or only whitespace)' is read as the Unicode White_Space property (which is what Go, the implementation language, calls space); zero-width space and BOM are not White_Space and therefore truthy", "schedules are whatever the Go runtime gives (the schedule-exhaustive part of C01 is the pipeline harness); a schedule-dependent result would show up as a non-reproducible violation"}
